@@ -359,10 +359,16 @@ def _builder_postdominates(prog, roles, ty, mods, rule, key):
                 builders_bb.append(bb)
     if not growers or not builders_bb:
         return False
+    flag_fn = prog.method_impl(ty, "ongoing_input_session") if buf in roles[ty].get("session_fields", ()) else None
+    _, ctor_names = builders.suggestion_ctor_sites(prog)
+    empty_ctors = {k for k, v in ctor_names.items() if v == "empty"}
     for g in growers:
         if g in builders_bb:
             continue
-        if not any(b.postdominates(x, g) for x in builders_bb):
+        # a path from the grower to return that avoids the builder must leave over an edge on which the buffer is empty (the session flag's
+        # false edge, or buffer.is_empty()'s true edge) and return the empty suggestion — an empty buffer is never shown from the stored list
+        ok, _ = common.passes_or_ends_empty(prog, b, g, builders_bb, buf, flag_fn, builders.SUGG, empty_ctors)
+        if not ok:
             return False
     return True
 
